@@ -1,0 +1,31 @@
+//go:build verif
+
+// Package verifhook provides verification hook points. With the `verif`
+// build tag At calls the installed handler, if any.
+package verifhook
+
+import "sync/atomic"
+
+// Enabled reports whether the hooks are compiled in.
+const Enabled = true
+
+// Func is the type of an installed hook handler.
+type Func func(point string, args ...interface{})
+
+var handler atomic.Pointer[Func]
+
+// Set installs a handler (nil removes it).
+func Set(f Func) {
+	if f == nil {
+		handler.Store(nil)
+		return
+	}
+	handler.Store(&f)
+}
+
+// At marks a hook point.
+func At(point string, args ...interface{}) {
+	if f := handler.Load(); f != nil {
+		(*f)(point, args...)
+	}
+}
